@@ -53,6 +53,11 @@ pub enum Op {
     Close { file: usize },
     ChangeNothing { file: usize },
     Request { kind: usize, file: usize, pos: PosKind, sel: u32 },
+    /// one change notification with two full-text changes: the last one is the buffer
+    ChangeTwice { file: usize, seed: u32 },
+    /// a request a client may send that is not one of the usual ones: a method the server does not implement, parameters
+    /// that are not what the method takes, a document whose name is not valid UTF-8
+    OddRequest { sel: u32 },
 }
 
 #[derive(Clone, Debug, Hash, PartialEq, Eq, Serialize, Deserialize)]
@@ -71,9 +76,18 @@ pub fn disk_files(c: &Case) -> BTreeMap<String, String> {
     let b = build(&c.entropy, &g);
     let (proj, _) = b.prog.render();
     let mut m = BTreeMap::new();
-    let main = format!("{}.import * as lib from \"lib.asm\"\n    lda lib.libval\n/// documented\ndoc1: nop\n    jmp doc1\n.test \"t1\" {{ brk }}\n", proj.main_text());
+    // sometimes: segment blocks inside segment blocks (what is on disk has no errors: a file that is closed again is compared
+    // with a server that never saw it)
+    let h = crate::engine::hash_of(&c.entropy);
+    let extra = match if proj.main_text().contains(".define segment") { 9 } else { h % 5 } {
+        0 => ".segment \"default\" {\n    .segment \"default\" {\n        nop\n    }\n    rts\n}\n",
+        _ => "",
+    };
+    let main = format!("{}.import * as lib from \"lib.asm\"\n    lda lib.libval\n/// documented\ndoc1: nop\n    jmp doc1\n.test \"t1\" {{ brk }}\n{}", proj.main_text(), extra);
     m.insert("main.asm".to_string(), main);
-    m.insert("lib.asm".to_string(), "liblab: rts\n.const libval = 7\n    lda #libval\n".to_string());
+    // (the library has a test of its own, far down: its code lens belongs to the library, not to the files that import it)
+    let lib_tail = if (h >> 8) % 3 == 0 { format!("{}.test \"libt\" {{\n    jsr liblab\n    brk\n}}\n", "// filler\n".repeat(60)) } else { String::new() };
+    m.insert("lib.asm".to_string(), format!("liblab: rts\n.const libval = 7\n    lda #libval\n{}", lib_tail));
     // a file that is not part of the project
     m.insert("other.asm".to_string(), "stray: nop\n    jmp stray\n".to_string());
     m
@@ -338,6 +352,11 @@ pub enum Step {
     /// a change notification without any change
     ChangeNothing { file: String },
     Request { method: String, file: String, line: u64, character: u64, pos_kind: String },
+    /// a change notification with several full-text changes
+    ChangeMulti { file: String, texts: Vec<String> },
+    /// a request given literally (`params` is JSON text; `{DIR}` stands for the URI of the project directory); any
+    /// response, also an error, will do
+    RawRequest { method: String, params: String },
 }
 
 #[derive(Clone, Debug, Hash, PartialEq, Eq, Serialize, Deserialize)]
@@ -393,7 +412,7 @@ pub fn compile(c: &Case) -> Raw {
                 if let Some(text) = buffers.get(f).cloned() {
                     let mut lines: Vec<String> = text.split('\n').map(|s| s.to_string()).collect();
                     let i = ((*line as u64 * lines.len() as u64) >> 32) as usize;
-                    let repl = ["", "    nop", "    lda #", "foo bar", "}", "{", "newlab: rts", "    jmp newlab", ".const added = 3", "    lda undefinedname", ".import * from \"lib.asm\"", "// comment", ".macro rec() { rec() }", "    rec()", ".import * from \"ghost.asm\""];
+                    let repl = ["", "    nop", "    lda #", "foo bar", "}", "{", "newlab: rts", "    jmp newlab", ".const added = 3", "    lda undefinedname", ".import * from \"lib.asm\"", "// comment", ".macro rec() { rec() }", "    rec()", ".import * from \"ghost.asm\"", ".segment \"my.code\" { nop }", ".segment \"default\" { .segment \"default\" { nop } }", ".segment \"default\" {"];
                     lines[i] = repl[(*variant as usize) % repl.len()].to_string();
                     let new = lines.join("\n");
                     buffers.insert(f.to_string(), new.clone());
@@ -436,6 +455,30 @@ pub fn compile(c: &Case) -> Raw {
                     steps.push(Step::ChangeNothing { file: f.to_string() });
                 }
             }
+            Op::ChangeTwice { file, seed } => {
+                let f = FILES[*file % FILES.len()];
+                if buffers.contains_key(f) {
+                    let mut c2 = c.clone();
+                    c2.entropy = c.entropy.iter().map(|x| x.rotate_left(*seed % 32) ^ seed.wrapping_mul(0x85eb_ca6b)).collect();
+                    let last = disk_files(&c2)["main.asm"].clone();
+                    buffers.insert(f.to_string(), last.clone());
+                    changed.insert(f.to_string(), true);
+                    steps.push(Step::ChangeMulti { file: f.to_string(), texts: vec!["lda undefinedzz\n".to_string(), last] });
+                }
+            }
+            Op::OddRequest { sel } => {
+                let odd: [(&str, &str); 7] = [
+                    ("textDocument/foldingRange", "{\"textDocument\":{\"uri\":\"{DIR}/main.asm\"}}"),
+                    ("textDocument/codeAction", "{\"textDocument\":{\"uri\":\"{DIR}/main.asm\"},\"range\":{\"start\":{\"line\":0,\"character\":0},\"end\":{\"line\":0,\"character\":1}},\"context\":{\"diagnostics\":[]}}"),
+                    ("textDocument/hover", "{\"textDocument\":{\"uri\":\"{DIR}/main.asm\"},\"position\":{\"line\":-1,\"character\":0}}"),
+                    ("textDocument/definition", "{\"textDocument\":{\"uri\":\"{DIR}/main.asm\"},\"position\":{\"line\":0}}"),
+                    ("textDocument/references", "{\"textDocument\":{\"uri\":\"{DIR}/caf%E9.asm\"},\"position\":{\"line\":0,\"character\":1},\"context\":{\"includeDeclaration\":true}}"),
+                    ("textDocument/hover", "{\"textDocument\":{\"uri\":\"{DIR}/caf%E9.asm\"},\"position\":{\"line\":0,\"character\":1}}"),
+                    ("textDocument/completion", "{\"textDocument\":{\"uri\":\"{DIR}/caf%E9.asm\"},\"position\":{\"line\":0,\"character\":1}}"),
+                ];
+                let (m, p) = odd[*sel as usize % odd.len()];
+                steps.push(Step::RawRequest { method: m.to_string(), params: p.to_string() });
+            }
             Op::Request { kind, file, pos, sel } => {
                 let kind = REQUESTS[*kind % REQUESTS.len()];
                 let f = FILES[*file % FILES.len()];
@@ -456,6 +499,20 @@ pub fn compile(c: &Case) -> Raw {
         }
     }
     Raw { disk, steps }
+}
+
+/// A witness that a server that has not answered is not going to: two samples of its threads, 300 ms apart, in which
+/// every thread sleeps and none has used any CPU time.
+fn blocked_witness(pid: u32) -> Option<String> {
+    let a = crate::props::c20::thread_sample(pid);
+    std::thread::sleep(Duration::from_millis(300));
+    let b = crate::props::c20::thread_sample(pid);
+    let all_blocked = !a.is_empty() && a.len() == b.len() && a.iter().zip(b.iter()).all(|(x, y)| x.1 == 'S' && y.1 == 'S' && x.2 == y.2);
+    if all_blocked {
+        Some(format!("all {} threads sleep without consuming CPU time: {:?}", b.len(), b))
+    } else {
+        None
+    }
 }
 
 fn died_at(tail: &str) -> String {
@@ -509,6 +566,35 @@ pub fn run_raw(raw: &Raw, log: &mut CaseLog) -> Verdict {
                 s.client.notify("textDocument/didChange", json!({"textDocument": {"uri": uri_for(&s.scratch.dir, file), "version": version}, "contentChanges": []}));
                 trace.push(format!("didChange {} (no changes)", file));
             }
+            Step::ChangeMulti { file, texts } => {
+                version += 1;
+                let changes: Vec<Value> = texts.iter().map(|t| json!({"text": t})).collect();
+                s.client.notify("textDocument/didChange", json!({"textDocument": {"uri": uri_for(&s.scratch.dir, file), "version": version}, "contentChanges": changes}));
+                if let Some(last) = texts.last() {
+                    buffers.insert(file.clone(), last.clone());
+                }
+                trace.push(format!("didChange {} ({} full-text changes in one notification)", file, texts.len()));
+                edits += 1;
+            }
+            Step::RawRequest { method, params } => {
+                let dir_uri = file_uri(&s.scratch.dir, "");
+                let params: Value = serde_json::from_str(&params.replace("{DIR}/", &dir_uri).replace("{DIR}", dir_uri.trim_end_matches('/'))).unwrap_or(Value::Null);
+                trace.push(format!("{} {}", method, params));
+                log.label(format!("odd-request:{}", method));
+                match s.client.request(method, params, t) {
+                    Ok(_) | Err(LspErr::Error(_)) => {}
+                    Err(LspErr::Timeout) => {
+                        if let Some(w) = blocked_witness(s.client.pid()) {
+                            return Verdict::fail(format!("request-never-answered|{}", method), format!("history:\n{}\nno response within {} s and the server is not working on one: {}", trace.join("\n"), t.as_secs(), w));
+                        }
+                        log.label("inconclusive");
+                        return Verdict::Pass;
+                    }
+                    Err(LspErr::Died(st, tail)) => {
+                        return Verdict::fail(format!("server-died|{}|{}|odd-request", method, died_at(&tail)), format!("history:\n{}\nthe server process ended: {}\n{}", trace.join("\n"), st, tail));
+                    }
+                }
+            }
             Step::Request { method, file, line, character, pos_kind } => {
                 let kind = method.as_str();
                 let f = file.as_str();
@@ -546,6 +632,10 @@ pub fn run_raw(raw: &Raw, log: &mut CaseLog) -> Verdict {
                         }
                     }
                     Err(LspErr::Timeout) => {
+                        // the clock alone decides nothing; a server of which every thread sleeps does
+                        if let Some(w) = blocked_witness(s.client.pid()) {
+                            return Verdict::fail(format!("request-never-answered|{}", kind), format!("history:\n{}\nno response within {} s and the server is not working on one: {}\nbuffer of {}:\n{}", trace.join("\n"), t.as_secs(), w, f, text));
+                        }
                         log.label("inconclusive");
                         return Verdict::Pass;
                     }
@@ -661,6 +751,8 @@ fn op_strategy() -> impl Strategy<Value = Op> {
         1 => (any::<u32>(), any::<u32>()).prop_map(|(line, variant)| Op::LineEdit { file: 4, line, variant }),
         1 => Just(Op::Close { file: 4 }),
         1 => (0usize..5).prop_map(|file| Op::ChangeNothing { file }),
+        1 => (0usize..2, any::<u32>()).prop_map(|(file, seed)| Op::ChangeTwice { file, seed }),
+        1 => any::<u32>().prop_map(|sel| Op::OddRequest { sel }),
         1 => Just(Op::Open { file: 3 }),
         1 => (any::<u32>(), any::<u32>()).prop_map(|(line, variant)| Op::LineEdit { file: 3, line, variant }),
         1 => Just(Op::Close { file: 3 }),
